@@ -125,9 +125,27 @@ PROPS["C18"] = {
     "assumptions": COMMON_ASSUME + ["symbols in a length vector are distinct (the callers build them from a running index; the simple-code path dedups)"],
 }
 
+PROPS["C19"] = {
+    "extract": ["vp8l_tables"],
+    "rule": "cases = (a) public BitBufReader API: random byte strings of 0..240 bytes x random sequences of up to 60 operations {read(n) for n in 1..32, read_bit, read_huffman over four fixed complete codes incl. a single-leaf and a 15-bit one} x capacities 16..64 (all visited) and 4096 x short-read patterns {1 byte per read, unlimited, fixed and random cycles}; (b) in situ through the capacity hook: encoder output, lossless ALPH, specification-synthesised valid/invalid streams and their truncations, each sanitized at capacities {16,17,19,23,31,32,47,64,4096}. non-trivial = every case (each performs at least one read); distinct = distinct case lines",
+    "trivial_tags": [],
+    "shards": {"quick": 8, "thorough": 16},
+    "trusted_base": [
+        "lean/MediaSan/Vp8l/BitBuf.lean: model of BitBufReader::{fill_buf, buf_bits, buf_read, read, read_bit, read_huffman}; Vec capacity stays as requested; read_to_end over take() retries short reads until the limit or end of input",
+        "hook in /repo (cfg signalapp_mp4san_verif): VERIF_BIT_BUF_CAPACITY read by the two sanitize_image_data functions",
+        "bitstream-io BitReader<Cursor<Vec<u8>>, LE>: position_in_bits, skip, read, read_huffman semantics",
+    ],
+    "assumptions": COMMON_ASSUME + ["the sub-image loop's buffer-only accessors are covered by C19_readahead (read-ahead <= 81 bits < 8*16-7) and by the in-situ runs; `buf_read_lz77` extra bits are `buf_read`"],
+}
+
 NOT_APPLICABLE = {}
 
 MANIFEST_TEXT = {
+    "C19": {
+        "text": "Lean theorems (simulation through 'absolute bit index = 8*dropped + position; buffer ++ unread = remaining bytes'): fill_buf preserves the abstraction and position and leaves >= 8*cap-7 bits or everything; read(n) and read_huffman through the buffer return exactly what the whole-string reader returns, report end of data iff the whole string is exhausted, and re-establish the abstraction - for every capacity with n+8 <= 8*cap resp. longest+8 <= 8*cap, every input and every chunking (invisible to read_to_end); the sub-image loop's read-ahead is <= 81 bits < 8*16-7. Correspondence: public BitBufReader API at capacities 16..64 and 4096 under random field sequences and short-read patterns against both the buffered model and the whole-string reader; in situ via the capacity hook, webpsan's verdict at nine capacities must equal the verdict at 4096 and the ideal model's.",
+        "note": "Trusted: Lean kernel and standard axioms; the BitBuf model (validated differentially); the hook. The lift from single operations to whole validator runs (C19_verdict) is carried by the in-situ correspondence; its proof is future work.",
+        "technique": "Lean 4 refinement proof (buffered bit reader vs ideal bit string) + differential check through the public API and in situ through a guarded capacity hook",
+    },
     "C18": {
         "text": "Lean theorems about the model of the canonical-code builder and the bitstream-io trie (see Props/C18.lean): trie insertion/finalisation lemmas, the single-symbol zero-bit case, canonical (not stream) order. Correspondence through the public CanonicalHuffmanTree / BitBufReader API: the real code, the model and an independent specification (Kraft sum = 1 or single length-1 symbol; next_code assignment; prefix-match decoding) must agree on acceptance, longest_code_len and every decoded symbol, exhaustively over small vectors and on random complete / under- / over-subscribed vectors over the real alphabets.",
         "note": "Partial: the general theorem 'build succeeds iff Kraft sum = 1 or single length-1 symbol' is stated in the Props file with the part proved so far; the equivalence is decided per generated case against the independent specification. Trusted: see evidence.",
